@@ -169,3 +169,4 @@ def regenerate(names):
     return failures
 
 from . import src2v_codec; GENERATORS.update(src2v_codec.GENERATORS)
+from . import src2v_sched; GENERATORS.update(src2v_sched.GENERATORS)
